@@ -321,7 +321,7 @@ def generic_record_validate(prop, res, sub, args, trace_module, consts, label, s
     log("%s: %d lines accepted, %d rejects, %.1fs" % (trace_module, accepted, len(rejects), time.time() - t0))
     for r in rejects:
         ev = r["event"] or {}
-        lit = bytes(ev.get("lit", ev.get("b", [])))
+        lit = bytes(ev.get("lit", ev.get("b", ev.get("text", []) if isinstance(ev.get("text"), list) else [])))
         res.add_mismatch({"suite": sub + "-trace", "ev": ev.get("ev"), "ep": r["why"], "kind": ev.get("origin"),
                           "bytes_hex": lit.hex(), "bytes_lossy": lit.decode("utf-8", "replace"), "event": ev,
                           "why": "trace line %d rejected by %s: %s" % (r["line_no"], trace_module, r["why"][:200]),
@@ -754,3 +754,32 @@ def check_C19(tier, seed):
     generic_record_validate("C19", res, "ty-record", ["--seed", seed, "--n", 6000 if tier == QUICK else 300000, "--mode", "conv"], "Trace_Serde", {}, "conv")
     generic_record_validate("C19", res, "ty-record", ["--seed", seed + 19, "--n", 4000 if tier == QUICK else 200000, "--mode", "eq"], "Trace_Serde", {}, "eq")
     return res.finish()
+
+
+def replay(prop, path):
+    """bin/check <prop> --replay <file>: every check is deterministic in (tree, seed, tier), so the recorded violation is replayed by
+    running the same check with the recorded seed and tier and looking for the same violation record (same content hash).
+    exit 1 + VIOLATION line when it reproduces, 0 when the property now holds on that input."""
+    v = json.load(open(path))
+    if v.get("property") != prop:
+        raise ToolError("replay file belongs to property %s" % v.get("property"))
+    want = os.path.basename(path)
+    fn = globals()["check_" + prop]
+    import io, contextlib
+    buf = io.StringIO()
+    with contextlib.redirect_stdout(buf):
+        rc = fn(v.get("tier", "quick"), int(v.get("seed", 1)))
+    out = buf.getvalue()
+    hit = [l for l in out.splitlines() if l.startswith("VIOLATION") and want in l]
+    if hit:
+        print(hit[0])
+        print("  reproduced: " + str(v.get("why", ""))[:300])
+        return 1
+    other = [l for l in out.splitlines() if l.startswith("VIOLATION")]
+    if other:
+        # the recorded case is among more than 10 violations or changed shape: report what the same run shows
+        print(other[0])
+        print("  the recorded violation was not among the first reported ones; the same seed still violates the property")
+        return 1
+    print("not reproduced: the check with seed %s tier %s reports no violation" % (v.get("seed"), v.get("tier", "quick")))
+    return 0
